@@ -196,6 +196,30 @@ def scalar_laws(R: Recorder) -> None:
             except BaseException:  # noqa: BLE001
                 ok = False
             R.monitor("attributes", ok, where={"kind": kind}, detail=f"{kind}attr(MISSING, {name!r}) did not raise AttributeError", case={"op": kind + "attr", "name": name})
+    # modification through names every object has: the attempt must be rejected and MISSING must stay what it was
+    class Compatible:  # same (empty) layout as Missing: object.__setattr__ would accept it as a new __class__
+        __slots__ = ()
+
+    MissingT = type(M)
+    for name, value in (("__class__", Compatible), ("__class__", int), ("__class__", 1), ("__doc__", "doc"), ("__module__", "m"), ("__dict__", {}), ("__slots__", ("a",)),
+                        ("__bool__", lambda: True), ("__eq__", lambda o: True), ("__reduce__", None), ("__hash__", None)):
+        for kind in ("set", "del"):
+            case = {"op": kind + "attr", "name": name, "value": repr(value)}
+            try:
+                if kind == "set":
+                    setattr(M, name, value)
+                else:
+                    delattr(M, name)
+                rejected = False
+            except (AttributeError, TypeError):
+                rejected = True
+            except BaseException:  # noqa: BLE001
+                rejected = False
+            intact = type(M) is MissingT and isinstance(M, MissingT)
+            if not intact:
+                object.__setattr__(M, "__class__", MissingT)  # put the process-wide singleton back before going on
+            intact = intact and (not M) and MissingT() is M and M == M and repr(M) == "MISSING"
+            R.monitor("attributes", rejected and intact, where={"kind": kind + "-dunder", "name": name, "accepted": not rejected}, detail=f"{kind}attr(MISSING, {name!r}{', ' + repr(value) if kind == 'set' else ''}): rejected={rejected}, MISSING intact afterwards={intact}", case=case)
     # state dict view skips missing
     h = g["Holder"]()
     R.monitor("identity", h.value is M and "value" not in h.as_dict(), where={"op": "state-default", "kind": "changed", "top": "state"}, detail=f"Holder() -> value {h.value!r}, as_dict {h.as_dict()!r}", case={"op": "state-default"})
